@@ -12,6 +12,7 @@ import (
 	"os/exec"
 	"path/filepath"
 	"regexp"
+	"runtime"
 	"sort"
 	"strings"
 	"time"
@@ -45,7 +46,7 @@ func (Engine) Meta() simrt.Meta {
 		},
 		RealCode:    []string{"cmd/emerge/main.go (rewritten entry)", "internal/command", "internal/ebnf/*", "internal/regex/*", "internal/generate/golang", "moorara/algo (scratch copy: map ranges and clock rewritten)", "real emerge binary (fresh-process tier)"},
 		Stubs:       []string{"map iteration order", "wall clock / PRNG seeds of the dependency", "operating system (simos)", "terminal (simui)"},
-		FaultKinds:  []string{"order_sorted", "order_reversed", "order_permuted", "clock_seed_changed", "fresh_process"},
+		FaultKinds:  []string{"order_sorted", "order_reversed", "order_permuted", "clock_seed_changed", "gomaxprocs_changed", "fresh_process"},
 		CaseTimeout: 180 * time.Second,
 	}
 }
@@ -159,7 +160,11 @@ func clip(s string) string {
 
 var devnull *os.File
 
-func runConfig(text string, flags []string, policy int, seed uint64) (tp tuple, multi int, clockReads int) {
+func runConfig(text string, flags []string, policy int, seed uint64, procs int) (tp tuple, multi int, clockReads int) {
+	if procs > 0 {
+		// the number of CPUs the run may use is part of "the process": output must not depend on it
+		defer runtime.GOMAXPROCS(runtime.GOMAXPROCS(procs))
+	}
 	simctl.Begin(policy, seed)
 	simui.Reset()
 	w := simos.NewWorld()
@@ -264,20 +269,24 @@ func (e Engine) Run(t *simrt.Tape, c simrt.Case, x *simrt.Ctx) *simrt.Result {
 	type cfg struct {
 		policy int
 		seed   uint64
+		procs  int
 	}
-	cfgs := []cfg{{simctl.Sorted, 1}, {simctl.Reversed, 1}, {simctl.Sorted, 0x9e3779b9}, {simctl.Permuted, uint64(t.Draw(1 << 30))}}
+	cfgs := []cfg{{simctl.Sorted, 1, 1}, {simctl.Reversed, 1, 1}, {simctl.Sorted, 0x9e3779b9, 1}, {simctl.Permuted, uint64(t.Draw(1 << 30)), 1}, {simctl.Sorted, 1, 4}, {simctl.Sorted, 1, 3}}
 	for len(cfgs) < K {
-		cfgs = append(cfgs, cfg{t.Draw(3), uint64(t.Draw(1 << 30))})
+		cfgs = append(cfgs, cfg{t.Draw(3), uint64(t.Draw(1 << 30)), []int{1, 2, 8, 16}[t.Draw(4)]})
 	}
 	var first tuple
 	for i, cf := range cfgs {
-		tp, multi, clk := runConfig(text, flags, cf.policy, cf.seed)
+		tp, multi, clk := runConfig(text, flags, cf.policy, cf.seed, cf.procs)
 		res.Evals++
 		res.Count([]string{"order_sorted", "order_reversed", "order_permuted"}[cf.policy], 1)
 		res.Count("map_ranges_over_2plus_keys", multi)
 		res.Count("clock_reads_seeding_prngs", clk)
 		if i > 0 && cf.seed != cfgs[0].seed {
 			res.Count("clock_seed_changed", 1)
+		}
+		if i > 0 && cf.procs != cfgs[0].procs {
+			res.Count("gomaxprocs_changed", 1)
 		}
 		if i == 0 {
 			first = tp
@@ -301,7 +310,7 @@ func (e Engine) Run(t *simrt.Tape, c simrt.Case, x *simrt.Ctx) *simrt.Result {
 				res.Known[id]++
 				continue
 			}
-			res.Violation = &simrt.Violation{Class: sig, Message: fmt.Sprintf("same specification and options, two order configurations (A: policy=%d seed=%d, B: policy=%d seed=%d) give different results: %s\n  flags=%q class=%s", cfgs[0].policy, cfgs[0].seed, cf.policy, cf.seed, d, flags, class),
+			res.Violation = &simrt.Violation{Class: sig, Message: fmt.Sprintf("same specification and options, two order configurations (A: policy=%d seed=%d GOMAXPROCS=%d, B: policy=%d seed=%d GOMAXPROCS=%d) give different results: %s\n  flags=%q class=%s", cfgs[0].policy, cfgs[0].seed, cfgs[0].procs, cf.policy, cf.seed, cf.procs, d, flags, class),
 				Detail: map[string]any{"input": text, "flags": flags}}
 			return res
 		}
@@ -315,7 +324,7 @@ func (e Engine) Run(t *simrt.Tape, c simrt.Case, x *simrt.Ctx) *simrt.Result {
 		}
 		var firstReal tuple
 		for i := 0; i < m; i++ {
-			tp := e.realRun(text, flags)
+			tp := e.realRun(text, flags, []int{1, 4, 2}[i%3])
 			res.Evals++
 			res.Count("fresh_process", 1)
 			if i == 0 {
@@ -411,7 +420,7 @@ func knownFinding(x *simrt.Ctx, sig string) string {
 	return ""
 }
 
-func (e Engine) realRun(text string, flags []string) (tp tuple) {
+func (e Engine) realRun(text string, flags []string, procs int) (tp tuple) {
 	dir, err := os.MkdirTemp("", "c15real-")
 	if err != nil {
 		panic(err)
@@ -423,6 +432,7 @@ func (e Engine) realRun(text string, flags []string) (tp tuple) {
 	args := append(append([]string{"-out", filepath.Join(dir, "out")}, flags...), in)
 	cmd := exec.Command(e.EmergeBin, args...)
 	cmd.Dir = dir
+	cmd.Env = append(os.Environ(), fmt.Sprintf("GOMAXPROCS=%d", procs))
 	var so, se bytes.Buffer
 	cmd.Stdout, cmd.Stderr = &so, &se
 	done := make(chan error, 1)
